@@ -152,7 +152,12 @@ def run(args):
             elif re.search(r"Summary.*\b(\d+) passed", b.stdout):
                 rec["status"] = "survives_tests"
                 rec["checks"] = {}
-                for chk in FILES[c["file"]]:
+                todo = FILES[c["file"]]
+                if args.get("--checks") == "all":
+                    todo = todo + [x for x in ["C%02d" % i for i in range(1, 21)] if x not in todo]
+                elif "--checks" in args:
+                    todo = args["--checks"].split(",")
+                for chk in todo:
                     t = time.time()
                     q = sh("bin/check %s --tier quick" % chk, cwd=verif, timeout=5400)
                     viol = [l for l in q.stdout.splitlines() if l.startswith("VIOLATION")]
